@@ -7,6 +7,7 @@ a value), all permutations applied on the operational model, invariant = same ou
 all accepted with results equal under the real == and identical props).
 """
 import itertools
+import os
 
 from . import absmap as am
 from . import core
@@ -68,7 +69,7 @@ def describe(e):
 
 def main(chk):
     core.setup_repo_path()
-    maxset = 2 if chk.tier == "quick" else 4
+    maxset = int(os.environ.get("VERIF_C11_MAXSET", "0")) or (3 if chk.tier == "quick" else 4)
     cfg = {"constants": {"MaxSet": str(maxset), "Types": tla_set(TYPES)},
            "invariants": ["OrderIndependent", "RefusedCleanly"]}
     res = chk.model_check("MC_C11", cfg, dump=True)
